@@ -1,6 +1,7 @@
 package sym
 
 import (
+	"fmt"
 	"go/types"
 	"math/big"
 	"strings"
@@ -201,11 +202,19 @@ func init() {
 	// the block-visit cap and must therefore sit in functions declared abstract.
 	regInvoke(func(c *Call) Val {
 		it := c.Args[0].(*IterV)
+		if it.Fam != nil && it.Pos == 0 {
+			return smt.BoolC(c.Ex.iterFirst(it) != nil)
+		}
 		return smt.Var(it.ID+"!valid!"+itoa(it.Pos), smt.Bool)
 	}, "Iterator.Valid")
 	regInvoke(func(c *Call) Val { c.Args[0].(*IterV).Pos++; return nil }, "Iterator.Next")
 	regInvoke(func(c *Call) Val {
 		it := c.Args[0].(*IterV)
+		if it.Fam != nil && it.Pos == 0 {
+			if r := c.Ex.iterFirst(it); r != nil {
+				return r
+			}
+		}
 		return &BytesV{Tag: "row", Row: &RowRef{Base: it.ID + "!" + itoa(it.Pos)}}
 	}, "Iterator.Value")
 	regInvoke(func(c *Call) Val {
@@ -351,7 +360,24 @@ func (ex *Exec) makeIterator(st *StoreV, p *BytesV, reverse bool, c *Call) Val {
 		full = &ns
 	}
 	idPrefix, _ := tableID(full, nil)
-	return &IterV{ID: ex.site("iter!" + idPrefix)}
+	it := &IterV{ID: ex.site("iter!" + idPrefix)}
+	// a declared prefix family over a table this path has not written: the first position is
+	// the extreme matching row
+	if ex.Cfg.EnvRef != nil && p != nil && !p.Nil && st.Prefix == nil {
+		for _, pf := range ex.Cfg.EnvRef.Specs.Prefixes {
+			if pf.Builder != p.Tag {
+				continue
+			}
+			if t := st.W.Tables[pf.Table]; t != nil && len(t.Writes) > 0 {
+				break
+			}
+			if len(p.Args) != len(pf.Fixed) {
+				break
+			}
+			it.Fam, it.W, it.Fixed, it.Reverse = pf, st.W, p.Args, reverse
+		}
+	}
+	return it
 }
 
 // asBytes views a byte-slice value (symbolic bytes, or a literal []byte{...}) as BytesV.
@@ -398,4 +424,83 @@ func (ex *Exec) posOf(c *Call) string {
 		return shortFile(p.Filename) + ":" + itoa(p.Line)
 	}
 	return "?"
+}
+
+// iterFirst resolves the first position of a prefix-family iterator: nil when no row matches
+// (then no matching key is present), otherwise the matching row with the extreme key.
+func (ex *Exec) iterFirst(it *IterV) *BytesV {
+	if it.firstOK == 1 {
+		return it.first
+	}
+	if it.firstOK == 2 {
+		return nil
+	}
+	pf := it.Fam
+	t := it.W.table(ex, pf.Table)
+	// arity of the key: fixed + ordered components (in declared positions)
+	n := len(pf.Fixed) + len(pf.Order)
+	mkKey := func(free func(i int) *smt.Term) []*smt.Term {
+		key := make([]*smt.Term, n)
+		for k, pos := range pf.Fixed {
+			key[pos] = it.Fixed[k]
+		}
+		for _, pos := range pf.Order {
+			key[pos] = free(pos)
+		}
+		return key
+	}
+	// sorts of the free components: from the fixed ones' neighbours is unknown; Str for all
+	// but the last ordered component, Int for the last (asset/source/time shape)
+	sortOf := func(pos int) smt.Sort {
+		if pos == pf.Order[len(pf.Order)-1] {
+			return smt.Int
+		}
+		return smt.Str
+	}
+	ex.fresh++
+	id := ex.fresh
+	bound := func(pos int) *smt.Term { return smt.Var(fmt.Sprintf("d!%d!k%d", id, pos), sortOf(pos)) }
+	var bvs []*smt.Term
+	for _, pos := range pf.Order {
+		bvs = append(bvs, bound(pos))
+	}
+	hasB := smt.App(t.Base+"!has", smt.Bool, mkKey(bound)...)
+	if ex.branch(smt.Var(it.ID+"!nonempty", smt.Bool)) {
+		star := func(pos int) *smt.Term { return smt.Var(fmt.Sprintf("%s!first!k%d", it.ID, pos), sortOf(pos)) }
+		key := mkKey(star)
+		ex.assume(smt.App(t.Base+"!has", smt.Bool, key...))
+		for _, pos := range pf.Order {
+			if sortOf(pos) == smt.Int {
+				ex.assume(smt.Ge(star(pos), smt.IntC(0)))
+			}
+		}
+		// extremality: every present matching key is <= (reverse) / >= (forward) the first
+		var le func(k int) *smt.Term
+		le = func(k int) *smt.Term { // bound[k..] <=lex star[k..]
+			pos := pf.Order[k]
+			a, b := bound(pos), star(pos)
+			if it.Reverse {
+				// a <= b
+			} else {
+				a, b = b, a
+			}
+			var lt, eq *smt.Term
+			if sortOf(pos) == smt.Int {
+				lt, eq = smt.Lt(a, b), smt.Eq(a, b)
+			} else {
+				lt, eq = smt.App("strlt", smt.Bool, a, b), smt.Eq(a, b)
+			}
+			if k == len(pf.Order)-1 {
+				return smt.Or(lt, eq)
+			}
+			return smt.Or(lt, smt.And(eq, le(k+1)))
+		}
+		ex.assume(smt.Forall(bvs, smt.Implies(hasB, le(0))))
+		it.first = &BytesV{Tag: "row", Row: &RowRef{Base: t.Base, Key: key, Table: pf.Table, TKey: key}}
+		it.firstOK = 1
+		return it.first
+	}
+	ex.assume(smt.Forall(bvs, smt.Not(hasB)))
+	it.firstOK = 2
+	return nil
 }
